@@ -113,6 +113,30 @@ def sortView (v : List (Str × Tree)) : List (Str × Tree) :=
 
 def showOrder (o : List Nat) : String := ".".intercalate (o.map toString)
 
+/-- the interface an instance requirement / import is about -/
+def ifaceOf : ItemKind → Option Nat
+  | .instance i | .type (.interface i) => some i
+  | _ => none
+
+/-- the `uses` of interface `i`: (local name, id of the interface the type is used from, name
+there when it was renamed) -/
+def usesView (t : Types) (i : Nat) : List (Str × Option Str × Option Str) :=
+  match t.interfaces[i]? with
+  | some itf => itf.uses.map fun (u, ut) => (u, (t.interfaces[ut.interface]?).bind (·.id), ut.name)
+  | none => []
+
+/-- two interface names are versions of one interface (same semver track, or the same name) -/
+def sameTrack (a b : Str) : Bool :=
+  match trackOf a, trackOf b with
+  | some x, some y => x == y
+  | none, none => a == b
+  | _, _ => false
+
+def showOptStr (o : Option Str) : String :=
+  match o with
+  | some s => String.ofList s
+  | none => "<anonymous>"
+
 /-- SPEC checks on one successful permutation -/
 def specOne (cs : List Contrib) (order : List Nat) (types : Types) (imports : List (Str × ItemKind)) (canon : List Str) :
     Option String :=
@@ -165,7 +189,30 @@ def specOne (cs : List Contrib) (order : List Nat) (types : Types) (imports : Li
             | _ => some s!"SPEC\t{tag}: merged import `{String.ofList cn}` of instance requirements is not an instance"
           else uni l'
         | _ => uni l'
-    uni cs
+    match uni cs with
+    | some e => some e
+    | none =>
+      -- the merged interface still ties every type a contributor `use`s to (a version of) the
+      -- interface the contributor uses it from: without the `use` the merged import's type is a
+      -- fresh one and the contributor's requirement "this is `types`'s `res`" is not satisfied
+      let rec usesKept (j : Nat) (l : List Contrib) (cn : List Str) : Option String :=
+        match l, cn with
+        | c :: l', n :: cn' =>
+          match ifaceOf c.kind, (amGet imports n).bind ifaceOf with
+          | some i, some m =>
+            let mv := usesView types m
+            let missing := (usesView c.types i).find? fun (u, jid, nm) =>
+              match jid with
+              | none => false
+              | some jn => !(mv.any fun (u', jid', nm') =>
+                  u' == u && nm' == nm && (match jid' with | some jn' => sameTrack jn' jn | none => false))
+            match missing with
+            | some (u, jid, _) =>
+              some s!"SPEC\t{tag}: merged import `{String.ofList n}` lost the `use` of `{String.ofList u}` from `{showOptStr jid}` that contributor {j} (`{String.ofList c.name}`) has"
+            | none => usesKept (j + 1) l' cn'
+          | _, _ => usesKept (j + 1) l' cn'
+        | _, _ => none
+      usesKept 0 cs canon
 
 def runModel (cs : List Contrib) (order : List Nat) : Except (Nat × AErr) AggState :=
   let rec go (l : List Nat) (step : Nat) (s : AggState) : Except (Nat × AErr) AggState :=
@@ -195,7 +242,26 @@ def modelOne (cs : List Contrib) (p : PermObs) : Option String :=
         else
           let mc := cs.map fun c => s.agg.canonical c.name
           if mc != canon then some s!"MODEL\t{tag}: canonical names model={mc.map String.ofList} impl={canon.map String.ofList}"
-          else none
+          else
+            -- the `uses` of every imported interface (by names, not by arena indices)
+            let usesOf (t : Types) (imps : List (Str × ItemKind)) :=
+              imps.map fun (n, k) => (n, match ifaceOf k with | some i => usesView t i | none => [])
+            let mu := usesOf s.agg.types s.agg.imports
+            let iu := usesOf types imports
+            -- (the id of the used interface is compared up to its semver track: the repaired code
+            -- renames a merged interface to the highest version seen, which the model leaves out)
+            let sameUse (x y : Str × Option Str × Option Str) : Bool :=
+              x.1 == y.1 && x.2.2 == y.2.2 &&
+                (match x.2.1, y.2.1 with
+                 | some a, some b => sameTrack a b
+                 | none, none => true
+                 | _, _ => false)
+            let sameUses (a b : List (Str × Option Str × Option Str)) : Bool :=
+              a.length == b.length && (a.zip b).all fun (x, y) => sameUse x y
+            match (mu.zip iu).find? (fun (a, b) => !(a.1 == b.1 && sameUses a.2 b.2)) with
+            | some (a, b) =>
+              some s!"MODEL\t{tag}: uses of import `{String.ofList a.1}` model={a.2.map fun x => (String.ofList x.1, showOptStr x.2.1, showOptStr x.2.2)} impl={b.2.map fun x => (String.ofList x.1, showOptStr x.2.1, showOptStr x.2.2)}"
+            | none => none
       | _, _ => some s!"BAD\t{tag}: a merged import does not unfold"
   | .error (st, .err m), .err st' m' =>
     if st != st' then some s!"MODEL\t{tag}: failing step model={st} impl={st'}"
